@@ -5,3 +5,4 @@ pub mod c09;
 pub mod c11;
 pub mod c08;
 pub mod c15;
+pub mod c06;
